@@ -261,6 +261,75 @@ fn alnum_string(mut idx: u64) -> Option<String> {
     Some(s)
 }
 
+/// A block of type names: `prefix` followed by every suffix of `suffix_len` characters over the type
+/// alphabet (letters, digits, '.', '+', '-'), judged in one tight loop without allocating. The blocks
+/// with a 2- or 3-character prefix and 4-character suffixes are all well-formed names of 6 and 7
+/// characters (9.3 x 10^10): none of them is a known name except `golang`.
+#[derive(Clone, Debug, serde::Serialize, serde::Deserialize)]
+pub struct TypeBlock {
+    pub prefix: String,
+    pub suffix_len: u8,
+}
+
+const TYPE_FIRST: &[u8] = b"abcdefghijklmnopqrstuvwxyz";
+const TYPE_REST: &[u8] = b"abcdefghijklmnopqrstuvwxyz0123456789.+-";
+
+fn type_block(idx: u64) -> Option<TypeBlock> {
+    // first the 26 * 39 two-character prefixes, then the 26 * 39^2 three-character ones
+    let two = 26 * 39;
+    let (mut i, plen) = if idx < two { (idx, 2) } else { (idx - two, 3) };
+    let mut prefix = String::new();
+    prefix.push(TYPE_FIRST[(i % 26) as usize] as char);
+    i /= 26;
+    for _ in 1..plen {
+        prefix.push(TYPE_REST[(i % 39) as usize] as char);
+        i /= 39;
+    }
+    Some(TypeBlock { prefix, suffix_len: 4 })
+}
+
+fn o_block(b: &TypeBlock, st: &mut Stats) -> Result<(), String> {
+    let n = b.suffix_len as usize;
+    if n > 5 || b.prefix.len() > 8 || !b.prefix.is_ascii() {
+        return Err("bad replay case: block size".into());
+    }
+    let mut buf = [0u8; 16];
+    let p = b.prefix.len();
+    buf[..p].copy_from_slice(b.prefix.as_bytes());
+    let mut digits = [0usize; 5];
+    for d in 0..n {
+        buf[p + d] = TYPE_REST[0];
+    }
+    let mut count = 0u64;
+    loop {
+        let s = std::str::from_utf8(&buf[..p + n]).unwrap();
+        count += 1;
+        if let Ok(v) = PackageType::from_str(s) {
+            if !v.name().eq_ignore_ascii_case(s) {
+                return Err(format!("{s:?} is taken for the package type {:?}", v.name()));
+            }
+            st.class("parses");
+        }
+        // next suffix
+        let mut d = 0;
+        loop {
+            if d == n {
+                st.class("block");
+                st.add_evaluations(count);
+                return Ok(());
+            }
+            digits[d] += 1;
+            if digits[d] < TYPE_REST.len() {
+                buf[p + d] = TYPE_REST[digits[d]];
+                break;
+            }
+            digits[d] = 0;
+            buf[p + d] = TYPE_REST[0];
+            d += 1;
+        }
+    }
+}
+
 pub fn sections() -> Vec<Box<dyn Section>> {
     vec![
         Box::new(Enumerated {
@@ -278,6 +347,15 @@ pub fn sections() -> Vec<Box<dyn Section>> {
             make: Box::new(|_, i| alnum_string(i)),
             oracle: o_lean,
             required: vec!["parses"],
+            complete: true,
+        }),
+        Box::new(Enumerated {
+            name: "all-type-names-of-six-and-seven-characters".into(),
+            // quick: the 6-character names (26 * 39 blocks of 39^4); thorough: the 7-character names as well
+            total: Box::new(|t: Tier| t.pick(26 * 39, 26 * 39 + 26 * 39 * 39)),
+            make: Box::new(|_, i| type_block(i)),
+            oracle: o_block,
+            required: vec!["block", "parses"],
             complete: true,
         }),
         Box::new(Listed {
